@@ -28,6 +28,7 @@ Interpretation decisions (no false alarms):
 """
 import hashlib
 import json
+import os
 import vlib
 
 LEVEL = "model_checking"
@@ -41,8 +42,9 @@ def sig_of(e, events, k):
 
 def run(ctx):
     q = ctx.quick
-    vlib.model_check(ctx, "MC_IbIndex.tla", "MC_IbIndex_quick.cfg" if q else "MC_IbIndex_thorough.cfg",
-                     workers=6 if q else 8, timeout=3000)
+    if not os.environ.get("VERIF_DEV_SKIP_MODEL"):   # development only (mutation runs): the model stage does not depend on /repo
+        vlib.model_check(ctx, "MC_IbIndex.tla", "MC_IbIndex_quick.cfg" if q else "MC_IbIndex_thorough.cfg",
+                         workers=6 if q else 8, timeout=3000)
     b = vlib.harness_bin("c07")
     tp = ctx.path("trace.ndjson")
     docs, maxbytes, large = (120, 3000, 20000) if q else (900, 20000, 300000)
